@@ -46,6 +46,7 @@ type verifyOpts struct {
 	pathCap  int
 	workers  int
 	filter   func(class string) bool // nil: discharge everything
+	fullFallback bool
 }
 
 func (p *Program) newExec(fn *ssa.Function, fc *FuncContract, opts verifyOpts) *Exec {
@@ -97,7 +98,13 @@ func mentionsName(ts []*Term, goal *Term, prefix string) map[string]bool {
 	return found
 }
 
-func (x *Exec) buildQuery(o *Obligation, depth int) *Query {
+func (x *Exec) buildQuery(o *Obligation, depth int) *Query { return x.buildQueryR(o, depth, 1) }
+
+func (x *Exec) buildQueryR(o *Obligation, depth int, rounds int) *Query {
+	return x.buildQueryM(o, depth, rounds, false)
+}
+
+func (x *Exec) buildQueryM(o *Obligation, depth int, rounds int, qfMode bool) *Query {
 	extra := x.instantiate(o.Assumes, o.Goal, depth)
 	assumes := append([]*Term(nil), o.Assumes...)
 	assumes = append(assumes, extra...)
@@ -121,28 +128,68 @@ func (x *Exec) buildQuery(o *Obligation, depth int) *Query {
 		assumes = append(assumes, ax)
 	}
 	goal := o.Goal
-	assumes, goal = expandQuantifiers(assumes, goal)
+	if qfMode {
+		assumes, goal = qfWeaken(assumes, goal, rounds)
+		return &Query{Name: o.Name, Assumes: assumes, Goal: goal}
+	}
+	assumes, goal = expandQuantifiers(assumes, goal, rounds)
 	return &Query{Name: o.Name, Assumes: assumes, Goal: goal}
 }
 
 var vcCache sync.Map // hash -> Result
 
 func dischargeVC(x *Exec, o *Obligation, opts verifyOpts) (Result, bool) {
-	q := x.buildQuery(o, opts.depth)
-	text := q.smtlib(false, "z3")
-	h := sha256.Sum256([]byte(text))
-	key := string(h[:])
-	if r, ok := vcCache.Load(key); ok {
-		return r.(Result), false
-	}
+	// first the quantifier-free weakening (decidable, fast, stable); then the quantified query
 	var r Result
 	disagree := false
-	if opts.thorough {
-		r, disagree = proveAll(q, opts.timeout)
-	} else {
-		r = prove(q, opts.timeout)
+	prevText := ""
+	{
+		q := x.buildQueryM(o, opts.depth, 3, true)
+		text := q.smtlib(false, "z3")
+		h := sha256.Sum256([]byte("qf" + text))
+		key := string(h[:])
+		var qr Result
+		if c, ok := vcCache.Load(key); ok {
+			qr = c.(Result)
+		} else {
+			if opts.thorough {
+				qr, disagree = proveAll(q, opts.timeout)
+			} else {
+				qr = prove(q, opts.timeout)
+			}
+			vcCache.Store(key, qr)
+		}
+		if qr.Status == "unsat" {
+			return qr, disagree
+		}
+		r = qr
 	}
-	vcCache.Store(key, r)
+	for _, rounds := range []int{1, 3} {
+		q := x.buildQueryR(o, opts.depth, rounds)
+		text := q.smtlib(false, "z3")
+		if text == prevText {
+			break
+		}
+		prevText = text
+		h := sha256.Sum256([]byte(text))
+		key := string(h[:])
+		if c, ok := vcCache.Load(key); ok {
+			r = c.(Result)
+		} else {
+			if opts.thorough {
+				r, disagree = proveAll(q, opts.timeout)
+			} else {
+				r = prove(q, opts.timeout)
+			}
+			vcCache.Store(key, r)
+		}
+		if r.Status == "unsat" {
+			return r, disagree
+		}
+		if !opts.fullFallback {
+			break
+		}
+	}
 	return r, disagree
 }
 
